@@ -4,7 +4,7 @@ from ..driver import Part
 from .. import common as C
 from .c15 import cpid, cobs, TYPE_IDS
 
-COQ_FILES = ["Wire.v", "WireExec.v", "WireProofs.v", "PropsWire.v"]
+COQ_FILES = ["Wire.v", "WireExec.v", "WireProofs.v", "PropsWire.v", "PeerExec.v"]
 THEOREMS = ["C16_reader_total", "C16_deliveries_addressed", "C16_first_bad_ends_stream",
             "C16_resolved_is_addressed", "C16_all_good_all_delivered", "C16_stream_ends_at_first_error"]
 RULE = ("crafted envelopes handed (after a real MarshalVT/UnmarshalVT round) to the real streamReader.Receive on a "
@@ -152,7 +152,27 @@ class Envelopes(Part):
         return out
 
 
-PARTS = [Envelopes()]
+class InternalTargets(Part):
+    """a peer addresses a well-formed envelope to one of the node's own internal actors"""
+    name = "internal_targets"
+    family = "peer16"
+    exec_module = "PeerExec"
+    one_per_process = True
+    TG = {"user": 0, "writer": 1, "router": 2, "events": 3, "response": 4}
+    OUT = {"ok": 0, "error": 1, "panic": 2}
+    branch_names = {1: "stream_writer", 2: "stream_router", 3: "event_stream", 4: "response_mailbox"}
+    crash_obs = {"outcome": "panic", "note": "the harness process died: a panic on a goroutine of the node"}
+
+    def generate(self, rng, tier):
+        cs = [{"target": t, "msg": m, "n": n} for t in self.TG for m in ("pid", "test") for n in ((1, 3) if tier == "quick" else (1, 2, 3, 9))]
+        return [{"input": c, "class": c["target"]} for c in cs]
+
+    def to_coq(self, inp, obs):
+        return "{| c_target := %s; c_count := %s; c_outcome := %s |}" % (
+            C.cnat(self.TG[inp["target"]]), C.cnat(inp["n"]), C.cnat(self.OUT.get(obs["outcome"], 2)))
+
+
+PARTS = [Envelopes(), InternalTargets()]
 
 
 def search(rng, binaries, work):
